@@ -125,6 +125,7 @@ class P(Prop):
             c, A = self.gen_case()
             self.oracle(c, A)
             if i % 3 == 0 and not c.blackboxes:
+                self.again_after_edit(c, lambda: self.oracle(c, A), p=0.5, exclude=("relabel",))
                 # the same Circuit object again after in-place edits (a type change, a new startpoint): the count must
                 # describe the circuit as it is now
                 gates = [g for g in c.graph.nodes if c.type(g) in gen.MULTI]
